@@ -543,7 +543,7 @@ func (r *runner) runCase(db *eng.DB, s *eng.Session, t *tableDef, id int, q *Que
 		tags = append(tags, "col:"+t.Cols[c].Ty+colSuffix(t.Cols[c]))
 	}
 	tags = append(tags, outOfRangeTags(t, q.Where)...)
-	tags = append(tags, inCITags(q.Where)...)
+	tags = append(tags, inCITags(t, q.Where)...)
 	sort.Strings(tags)
 	tags = uniq(tags)
 	kk := keyKind(t, lk)
@@ -679,8 +679,8 @@ func outOfRangeTags(t *tableDef, e *Expr) []string {
 	return out
 }
 
-// inCITags: in:ci when an IN list is applied to an _ai_ci column
-func inCITags(e *Expr) []string {
+// inCITags: in:ci when an IN list is applied to an _ai_ci column; in:alloor see below
+func inCITags(t *tableDef, e *Expr) []string {
 	var out []string
 	var walk func(e *Expr)
 	walk = func(e *Expr) {
@@ -689,6 +689,19 @@ func inCITags(e *Expr) []string {
 		}
 		if e.K == "in" && e.E != nil && e.E.K == "col" && e.E.C == "ci" {
 			out = append(out, "in:ci")
+		}
+		if e.K == "in" && e.E != nil && e.E.K == "col" && t.Cols[e.E.I-1].Ty != "s" && len(e.List) > 0 {
+			// in:alloor: every member of the list is an integer outside the column's type
+			lo, hi := typeRange(t.Cols[e.E.I-1].Ty)
+			all := true
+			for _, l := range e.List {
+				if l.K != "lit" || l.V == nil || l.V.T != "i" || (toInt(l.V.V) >= lo && toInt(l.V.V) <= hi) {
+					all = false
+				}
+			}
+			if all {
+				out = append(out, "in:alloor")
+			}
 		}
 		for _, a := range e.A {
 			walk(a)
